@@ -169,8 +169,10 @@ def firstDiff (a : Array Abs.Item) (b : Array Abs.Item) (j n : Nat) : Option Nat
 def detail (g : Abs.Geom) (st : Abs.St) (op : Abs.Op) (o : Abs.Out) (tag : String) : String :=
   match op, tag with
   | .read ty fc _, "data" =>
-    let items := Abs.retItems g fc o.ret
-    match firstDiff o.data (st.ref ty) (st.rpos * g.ch) items with
+    let items := Abs.retItems g fc o.ret * Abs.cells ty
+    if st.frames < st.rpos + Abs.retItems g fc o.ret / g.ch then
+      s!" delivered={Abs.retItems g fc o.ret / g.ch} frames, the file holds {st.frames - st.rpos} from the read position on"
+    else match firstDiff o.data (st.ref ty) (st.rpos * g.cpf ty) items with
     | some k => s!" at={k} got={(o.data[k]?.map (hexFixed (digitsOf ty))).getD "none"} want={(((st.ref ty)[st.rpos * g.cpf ty + k]?).map (hexFixed (digitsOf ty))).getD "none"}"
     | none => ""
   | .seek off wh, _ => s!" target={match Abs.seekTarget st off wh with | some t => toString t | none => "refuse"} ret={o.ret}"
